@@ -367,10 +367,19 @@ func execOf(in In, em *Emitter) {
 		}
 		o["bm"] = bmJ(ws)
 		o["arr"] = nums32(bitmap.ToArray(ws))
-		var get, get1, sget, sget1 [][]int64
+		// the same bitmap as a slice with spare capacity holding garbage beyond its length
+		spare := make([]uint64, len(ws)+3)
+		for i := range spare {
+			spare[i] = ^uint64(0)
+		}
+		copy(spare, ws)
+		view := spare[:len(ws)]
+		var get, get1, sget, sget1, sgetc, sget1c [][]int64
 		for _, i := range probes {
 			sget = append(sget, wordOnes(bitmap.SafeGet(ws, i)))
 			sget1 = append(sget1, wordOnes(bitmap.SafeGet1(ws, i)))
+			sgetc = append(sgetc, wordOnes(bitmap.SafeGet(view, i)))
+			sget1c = append(sget1c, wordOnes(bitmap.SafeGet1(view, i)))
 			if i >= 0 && int(i) < len(ws)*64 {
 				get = append(get, wordOnes(bitmap.Get(ws, i)))
 				get1 = append(get1, wordOnes(bitmap.Get1(ws, i)))
@@ -380,15 +389,16 @@ func execOf(in In, em *Emitter) {
 			}
 		}
 		if get == nil {
-			get, get1, sget, sget1 = [][]int64{}, [][]int64{}, [][]int64{}, [][]int64{}
+			get, get1, sget, sget1, sgetc, sget1c = [][]int64{}, [][]int64{}, [][]int64{}, [][]int64{}, [][]int64{}, [][]int64{}
 		}
-		o["get"], o["get1"], o["sget"], o["sget1"] = get, get1, sget, sget1
+		o["get"], o["get1"], o["sget"], o["sget1"], o["sgetc"], o["sget1c"] = get, get1, sget, sget1, sgetc, sget1c
+		o["arrc"] = nums32(bitmap.ToArray(view))
 	})
 	if abn != "" {
 		o = J{}
 	}
 	em.Emit("of", J{"in": in.m, "out": o, "abn": abn})
-	em.Calls(2 + 4*len(probes))
+	em.Calls(3 + 6*len(probes))
 }
 
 func execOfMany(in In, em *Emitter) {
@@ -529,6 +539,37 @@ func genC12(g *Gen) {
 				}
 				subs[s] = append(subs[s], p)
 				floor = base + p + 1
+				p++
+			}
+			base += sizes[s]
+		}
+		g.Case("ofmany", J{"subs": subs, "sizes": sizes})
+	}
+	// segments whose positions reach beyond their size into later words, followed by segments that put bits
+	// back into earlier words (the shifted concatenation is then NOT ascending); every bit still fits the result
+	for i := 0; i < g.N(800, 30000); i++ {
+		k := 2 + r.Intn(3)
+		subs := make([][]int64, k)
+		sizes := make([]int64, k)
+		for s := 0; s < k; s++ {
+			sizes[s] = []int64{0, 1, 2, 30, 63, 64, 65, 100, 200}[r.Intn(9)]
+		}
+		total := int64(0)
+		for _, z := range sizes {
+			total += z
+		}
+		base := int64(0)
+		for s := 0; s < k; s++ {
+			subs[s] = []int64{}
+			p := int64(0)
+			for c := r.Intn(4); c > 0; c-- {
+				p += int64(r.Intn(70))
+				// a position may exceed the segment size as long as it fits the final bitmap, except in the last
+				// segment, whose last position may also extend it
+				if base+p >= total && s != k-1 {
+					break
+				}
+				subs[s] = append(subs[s], p)
 				p++
 			}
 			base += sizes[s]
